@@ -132,6 +132,42 @@ def leaf_detectors(det, out=None):
     return out
 
 
+class Node:
+    """Structural reference model of a detector: a leaf holds antennas (a built
+    string, a list or a single antenna), an inner node holds child nodes.  Nodes
+    are shared by reference exactly where pyrex nests the same object, so an
+    in-place change of a nested detector shows in every detector that contains it."""
+
+    def __init__(self, kind, children=None, ants=None, obj=None):
+        self.kind = kind            # 'ants' | 'group' | 'combined'
+        self.children = children if children is not None else []
+        self.ants = ants if ants is not None else []
+        self.obj = obj              # the real leaf detector (for rebuilds), if any
+
+    def flat(self):
+        if self.kind == "ants":
+            return list(self.ants)
+        out = []
+        for c in self.children:
+            out.extend(c.flat())
+        return out
+
+    def contains(self, other):
+        if self is other:
+            return True
+        return any(c.contains(other) for c in self.children)
+
+    def leaf_detectors(self, out=None):
+        out = [] if out is None else out
+        if self.kind == "ants":
+            if self.obj is not None:
+                out.append(self)
+        else:
+            for c in self.children:
+                c.leaf_detectors(out)
+        return out
+
+
 class C19Detector(Machine):
     prop_id = "C19"
     name = "detector"
@@ -146,11 +182,13 @@ class C19Detector(Machine):
     components = {"real": ["pyrex.Detector", "CombinedDetector", "pyrex.Antenna (threshold subclass)",
                            "flatten"], "stub": ["spy sub-detectors recording received kwargs "
                                                 "(real Detector subclasses)"]}
-    assumptions = ["+= is only issued on detector objects that are not themselves nested inside another "
-                   "live detector (aliasing through nesting is outside the statement)",
+    assumptions = ["the reference model mirrors pyrex's nesting semantics (a combined left operand merges "
+                   "its subsets, a plain one nests both operands by reference); a += whose right operand "
+                   "contains the left one is not generated (it would nest a detector in itself)",
                    "keywords accepted by no sub-detector are not generated"]
     required_counters = ("fault.above_ice_add", "fault.above_ice_iadd", "fault.above_ice_build",
-                         "op.assoc", "op.triggered", "op.clear", "probe.kwargs_dispatch_checked")
+                         "op.assoc", "op.triggered", "op.clear", "probe.kwargs_dispatch_checked",
+                         "probe.iadd_on_nested", "probe.leaf_rebuilt", "probe.late_build")
 
     def draw_config(self, rng):
         return {"n_steps": rng.pick([4, 8, 12, 20, 30]), "noisy": rng.chance(0.3),
@@ -162,8 +200,7 @@ class C19Detector(Machine):
         self.cfg = cfg
         self.K = _classes(pyrex)
         self.slots = [None] * N_SLOTS      # detector objects
-        self.models = [None] * N_SLOTS     # list of antenna objects in expected order
-        self.nested = set()                # ids of detector objects nested inside others
+        self.models = [None] * N_SLOTS     # Node trees (reference model of the structure)
         self.sig_count = {}                # id(antenna) -> number of signals received (model)
         self.ants = {}                     # id -> antenna (keep alive)
 
@@ -182,7 +219,7 @@ class C19Detector(Machine):
         if live:
             kinds += [("add", 1.5), ("radd", 0.8), ("iadd", 1.0), ("sum", 0.8), ("assoc", 0.7),
                       ("receive", 2.0), ("clear", 0.8), ("triggered", 1.5), ("access", 1.0),
-                      ("bad_add", 0.6), ("bad_iadd", 0.6)]
+                      ("bad_add", 0.6), ("bad_iadd", 0.6), ("rebuild_leaf", 0.6)]
         kinds.append(("bad_make", 0.4))
         kinds.append(("late_build", 0.6))
         k = rng.weighted(kinds)
@@ -243,6 +280,9 @@ class C19Detector(Machine):
             return {"op": "triggered", "a": rng.pick(live), "mc": rng.chance(0.4), "kw": kw}
         if k == "access":
             return {"op": "access", "a": rng.pick(live), "i": rng.randrange(40)}
+        if k == "rebuild_leaf":
+            return {"op": "rebuild_leaf", "a": rng.pick(live), "k": rng.randrange(12),
+                    "threshold": rng.pick([0.2, 0.5, 0.8])}
         if k == "bad_add":
             return {"op": "bad_add", "a": rng.pick(live), "side": rng.pick(["left", "right"]),
                     "other": rng.pick(["antenna", "list"]), "n": rng.randint(1, 3),
@@ -271,7 +311,34 @@ class C19Detector(Machine):
 
     def _store(self, dst, det, model):
         self.slots[dst] = det
-        self.models[dst] = list(model)
+        self.models[dst] = model
+
+    def _node_of(self, det):
+        """Node tree mirroring a freshly built (non-combined) detector."""
+        subs = list(det.subsets)
+        if subs and all(hasattr(x, "subsets") for x in subs):
+            return Node("group", children=[self._node_of(x) for x in subs])
+        return Node("ants", ants=list(det), obj=det)
+
+    def _is_combined(self, det):
+        return isinstance(det, self.pyrex.detector.CombinedDetector)
+
+    def _model_add(self, a, na, b, nb):
+        """Node of a + b (pyrex: a combined left operand merges subsets, a plain one nests).
+        a / b are the real operands or True/False for "is a combined detector"."""
+        a_comb = a if isinstance(a, bool) else self._is_combined(a)
+        b_comb = b if isinstance(b, bool) else self._is_combined(b)
+        if a_comb:
+            kids = list(na.children) + (list(nb.children) if b_comb else [nb])
+        else:
+            kids = [na, nb]
+        return Node("combined", children=kids)
+
+    def _model_radd(self, b, nb, a, na):
+        """Node of b + a where b is a free antenna / list (handled by a.__radd__)."""
+        if self._is_combined(a):
+            return Node("combined", children=[nb] + list(na.children))
+        return Node("combined", children=[nb, na])
 
     def _free_operand(self, op, above=None):
         """Free-standing antenna or list of antennas; above = index placed above the ice."""
@@ -280,15 +347,19 @@ class C19Detector(Machine):
             # a combined detector (allowed to hold them) bringing several subsets, one above the ice
             ants = [self._new_antenna(z=-60.0, x=1.0), self._new_antenna(z=5.0 if above is not None else -61.0, x=2.0),
                     self._new_antenna(z=-62.0, x=3.0)]
-            return self.K["LaxCombined"](*ants), list(ants)
+            extra = [self._new_antenna(z=-63.0, x=4.0), self._new_antenna(z=-64.0, x=5.0)]
+            # one subset holds several antennas: antennas and subsets must not be confused
+            det = self.K["LaxCombined"](extra, *ants)
+            return det, Node("combined", children=[Node("ants", ants=list(extra))] +
+                             [Node("ants", ants=[x]) for x in ants])
         if op["other"] == "antenna":
             a = self._new_antenna(z=5.0 if above is not None else -60.0)
-            return a, [a]
+            return a, Node("ants", ants=[a])
         ants = []
         for j in range(n):
             z = 5.0 if (above is not None and j == above % n) else -60.0 - j
             ants.append(self._new_antenna(z=z, x=float(j)))
-        return ants, list(ants)
+        return ants, Node("ants", ants=list(ants))
 
     # ------------------------------------------------------------------
     def apply(self, op):
@@ -359,7 +430,7 @@ class C19Detector(Machine):
                 a.noisy = True
                 a.noise_rms = self.cfg.get("noise_rms", 1e-4)
             self._register(a)
-        self._store(op["slot"], det, ants)
+        self._store(op["slot"], det, self._node_of(det))
         return ["make", len(ants)]
 
     def _op_late_build(self, op):
@@ -423,9 +494,9 @@ class C19Detector(Machine):
         else:
             b, mb = self._free_operand(op)
         st, res = self.sut(lambda: a + b, where="__add__")
-        self._mark_nested(res)
-        self._store(op["dst"], res, ma + mb)
-        return ["add", len(ma), len(mb)]
+        node = self._model_add(a, ma, b, mb)
+        self._store(op["dst"], res, node)
+        return ["add", len(ma.flat()), len(mb.flat())]
 
     def _op_radd(self, op):
         a, ma = self._need(op["a"])
@@ -436,23 +507,17 @@ class C19Detector(Machine):
             return ["radd", "zero"]
         b, mb = self._free_operand(op)
         st, res = self.sut(lambda: b + a, where="__radd__")
-        self._mark_nested(res)
-        self._store(op["dst"], res, mb + ma)
-        return ["radd", len(mb), len(ma)]
-
-    def _mark_nested(self, det):
-        for s in getattr(det, "subsets", []):
-            if hasattr(s, "subsets"):
-                self.nested.add(id(s))
+        self._store(op["dst"], res, self._model_radd(b, mb, a, ma))
+        return ["radd", len(mb.flat()), len(ma.flat())]
 
     def _op_iadd(self, op):
         a, ma = self._need(op["a"])
-        if id(a) in self.nested:
-            raise Skip("+= on a detector nested inside another live detector")
         if op["other"] == "slot":
             b, mb = self._need(op["b"])
             if b is a:
                 raise Skip("self +=")
+            if mb.contains(ma):
+                raise Skip("+= of a detector that contains the left operand (would nest it in itself)")
         else:
             b, mb = self._free_operand(op)
 
@@ -461,32 +526,62 @@ class C19Detector(Machine):
             x += b
             return x
         st, res = self.sut(do, where="__iadd__")
-        self._mark_nested(res)
-        if res is not a:
-            # plain detectors fall back to __add__: a itself is now nested
-            self.nested.add(id(a))
-        self._store(op["a"], res, ma + mb)
-        return ["iadd", len(ma), len(mb)]
+        if self._is_combined(a):
+            if res is not a:
+                raise Violation("C19:iadd-not-in-place", "+= on a combined detector returned another object")
+            # in place: every detector that nests this one sees the new content
+            ma.children.extend(list(mb.children) if self._is_combined(b) else [mb])
+            nested_elsewhere = any(m is not None and m is not ma and m.contains(ma) for m in self.models)
+            if nested_elsewhere:
+                self.count("probe.iadd_on_nested")
+                self.nontrivial = True
+            self._store(op["a"], res, ma)
+        else:
+            # plain detectors fall back to __add__: a new combined detector nesting a
+            self._store(op["a"], res, self._model_add(a, ma, b, mb))
+        return ["iadd", len(self.models[op["a"]].flat())]
 
     def _op_sum(self, op):
         items = [self._need(i) for i in op["items"]]
         st, res = self.sut(sum, [d for d, _ in items], where="sum")
-        model = []
-        for _, m in items:
-            model += m
         if len(items) == 1:
             if res is not items[0][0]:
                 raise Violation("C19:radd-zero", "sum([d]) is not d")
             return ["sum", 1]
-        self._mark_nested(res)
+        cur, node = items[0]
+        for d, m in items[1:]:
+            node = self._model_add(cur, node, d, m)
+            cur = True
         if len(items) >= 3:
             self.nontrivial = True
-        self._store(op["dst"], res, model)
-        return ["sum", len(model)]
+        self._store(op["dst"], res, node)
+        return ["sum", len(node.flat())]
+
+    def _op_rebuild_leaf(self, op):
+        """A nested leaf detector builds its antennas again on its own: every
+        detector containing it must visit the new antennas."""
+        a, ma = self._need(op["a"])
+        leaves = ma.leaf_detectors()
+        if not leaves:
+            raise Skip("no leaf detector")
+        leaf = leaves[op["k"] % len(leaves)]
+        kw = {"antenna_class": self.K["ThrAntenna"]}
+        if type(leaf.obj).__name__ != "StrPlain" or True:
+            kw["threshold"] = op["threshold"]
+        st, _ = self.sut(lambda: leaf.obj.build_antennas(**kw), where="leaf.build_antennas")
+        leaf.ants = list(leaf.obj)
+        for x in leaf.ants:
+            if self.cfg["noisy"]:
+                x.noisy = True
+                x.noise_rms = self.cfg.get("noise_rms", 1e-4)
+            self._register(x)
+        self.count("probe.leaf_rebuilt")
+        self.nontrivial = True
+        return ["rebuild_leaf", len(leaf.ants)]
 
     def _op_assoc(self, op):
         (a, ma), (b, mb), (c, mc) = [self._need(i) for i in op["items"]]
-        want = [id(x) for x in ma + mb + mc]
+        want = [id(x) for x in ma.flat() + mb.flat() + mc.flat()]
 
         def variants():
             x = a + b
@@ -511,6 +606,7 @@ class C19Detector(Machine):
 
     def _op_receive(self, op):
         a, ma = self._need(op["a"])
+        ma = ma.flat()
         if not ma:
             raise Skip("no antennas")
         ant = ma[op["k"] % len(ma)]
@@ -521,6 +617,7 @@ class C19Detector(Machine):
     def _op_clear(self, op):
         a, ma = self._need(op["a"])
         st, _ = self.sut(lambda: a.clear(reset_noise=op["reset_noise"]), where="clear")
+        ma = ma.flat()
         had = sum(self.sig_count[id(x)] for x in ma)
         for x in ma:
             self.sig_count[id(x)] = 0
@@ -530,6 +627,7 @@ class C19Detector(Machine):
 
     def _op_triggered(self, op):
         a, ma = self._need(op["a"])
+        ma = ma.flat()
         mc = op["mc"]
         kw = dict(op["kw"])
         is_combined = isinstance(a, self.pyrex.detector.CombinedDetector)
@@ -619,6 +717,7 @@ class C19Detector(Machine):
 
     def _op_access(self, op):
         a, ma = self._need(op["a"])
+        ma = ma.flat()
         n = len(ma)
         st, ln = self.sut(len, a, where="len")
         if ln != n:
@@ -633,8 +732,6 @@ class C19Detector(Machine):
 
     def _bad_composition(self, op, inplace):
         a, ma = self._need(op["a"])
-        if inplace and id(a) in self.nested:
-            raise Skip("+= on nested detector")
         if op["other"] == "combined" and not (inplace and isinstance(a, self.pyrex.detector.CombinedDetector)):
             # only an in-place merge into a combined detector re-tests the merged subsets
             # (a lax detector nested as a whole keeps its own opt-out)
@@ -676,6 +773,7 @@ class C19Detector(Machine):
                 continue
             st, got = self.sut(list, d, where="iter")
             ids = [id(x) for x in got]
+            m = m.flat()
             if len(set(ids)) != len(ids) and len(set(id(x) for x in m)) == len(m):
                 raise Violation("C19:duplicate-visit", "slot %d visits an antenna twice after %s"
                                 % (i, opname))
@@ -685,7 +783,13 @@ class C19Detector(Machine):
                                 % (i, len(ids), len(m), opname))
             st, ln = self.sut(len, d, where="len")
             if ln != len(m):
-                raise Violation("C19:len", "len(slot %d)=%d, model %d" % (i, ln, len(m)))
+                raise Violation("C19:len", "len(slot %d)=%d but iteration visits %d antennas (after %s)"
+                                % (i, ln, len(m), opname))
+            if m:
+                st, ends = self.sut(lambda: (d[0], d[-1], d[len(m) // 2]), where="getitem")
+                if ends[0] is not m[0] or ends[1] is not m[-1] or ends[2] is not m[len(m) // 2]:
+                    raise Violation("C19:getitem", "indexing slot %d disagrees with iteration (after %s)"
+                                    % (i, opname))
         for aid, ant in self.ants.items():
             n = len(ant.signals)
             if n != self.sig_count[aid]:
@@ -694,7 +798,7 @@ class C19Detector(Machine):
                                 "reached the wrong antennas" % (n, self.sig_count[aid], opname))
 
     def finish(self):
-        return [len(m) if m is not None else None for m in self.models]
+        return [len(m.flat()) if m is not None else None for m in self.models]
 
 
 MACHINES = [C19Detector]
